@@ -141,6 +141,13 @@ def defAtom : DefKind → Option Val
   | .dur => some (.dur 0)
   | .list | .dict | .msg _ => Option.none
 
+/-- an atom `v` against the default of kind `k` (unequal when that default is a container).
+    Used for both orders of the operands: `atomEq` is symmetric (`atomEq_comm`, BpProofs/EqSound.lean) -/
+def atomDefEq (k : DefKind) (v : Val) : Bool :=
+  match defAtom k with
+  | some d => atomEq v d
+  | Option.none => false
+
 mutual
 /-- the comparison of `v` with the default of kind `k` (`[]`, `{}`, a scalar zero, `None`,
     the epoch, a fresh `Cls()`), in either order -/
@@ -151,29 +158,26 @@ def defEq (S : Schema) (k : DefKind) : Val → Bool
     match k with
     | .msg c' => c == c' && slotsDef S (fieldsOf S c) sl
     | _ => false
-  | .ph => (match defAtom k with | some d => atomEq .ph d | Option.none => false)
-  | .none => (match defAtom k with | some d => atomEq .none d | Option.none => false)
-  | .int i => (match defAtom k with | some d => atomEq (.int i) d | Option.none => false)
-  | .bool b => (match defAtom k with | some d => atomEq (.bool b) d | Option.none => false)
-  | .f32 b => (match defAtom k with | some d => atomEq (.f32 b) d | Option.none => false)
-  | .f64 b => (match defAtom k with | some d => atomEq (.f64 b) d | Option.none => false)
-  | .str s => (match defAtom k with | some d => atomEq (.str s) d | Option.none => false)
-  | .byt s => (match defAtom k with | some d => atomEq (.byt s) d | Option.none => false)
-  | .ts us => (match defAtom k with | some d => atomEq (.ts us) d | Option.none => false)
-  | .dur us => (match defAtom k with | some d => atomEq (.dur us) d | Option.none => false)
+  | .ph => atomDefEq k .ph
+  | .none => atomDefEq k .none
+  | .int i => atomDefEq k (.int i)
+  | .bool b => atomDefEq k (.bool b)
+  | .f32 b => atomDefEq k (.f32 b)
+  | .f64 b => atomDefEq k (.f64 b)
+  | .str s => atomDefEq k (.str s)
+  | .byt s => atomDefEq k (.byt s)
+  | .ts us => atomDefEq k (.ts us)
+  | .dur us => atomDefEq k (.dur us)
 /-- `Message.__eq__` between the slots `vs` and those of a fresh instance (`None` for a
-    proto3-optional field, PLACEHOLDER otherwise) -/
+    proto3-optional field, PLACEHOLDER otherwise): PLACEHOLDER against `None` compares the
+    field default with `None`; a value against `None` is equal only if it is `None`;
+    PLACEHOLDER against PLACEHOLDER is skipped; a value against PLACEHOLDER is `defEq` -/
 def slotsDef (S : Schema) : List FieldD → List Val → Bool
   | f :: fs, v :: vs =>
-    (if f.optional then
-      (match v with
-       | .ph => (match defAtom f.defKind with | some d => atomEq d .none | Option.none => false)
-       | .none => true
-       | _ => false)
-     else
-      (match v with
-       | .ph => true
-       | v => defEq S f.defKind v)) && slotsDef S fs vs
+    (match v with
+     | .ph => if f.optional then atomDefEq f.defKind .none else true
+     | .none => if f.optional then true else atomDefEq f.defKind .none
+     | v => if f.optional then false else defEq S f.defKind v) && slotsDef S fs vs
   | _, _ => true
 end
 
